@@ -37,6 +37,9 @@ enum Op {
 
 /// Legal file names that look unusual to path-handling code.
 const ODD_NAMES: [&str; 6] = ["v1..v2", "..x", "x..", ".h", "sp ace", "\u{e9}t\u{e9}"];
+/// Names with a blank at either end: legal, and the tool and the checkpoint must mean the same
+/// file by them (the patch format trims its paths, so these go to `write` and manual checkpoints only).
+const PADDED_NAMES: [&str; 2] = ["pad ", " pad"];
 
 fn alphabet(tier: Tier) -> Vec<Op> {
     let mut ops = vec![
@@ -456,10 +459,14 @@ fn worker(opts: Opts) -> i32 {
             ext.push(Op::PatchDelete { path: name });
             ext.push(Op::Checkpoint { paths: vec![name], absolute: false });
         }
+        for name in PADDED_NAMES {
+            ext.push(Op::Write { path: name, content: "padded\n" });
+            ext.push(Op::Checkpoint { paths: vec![name], absolute: false });
+        }
         let m = ext.len();
         let is_odd = |o: &Op| match o {
-            Op::Write { path, .. } | Op::PatchAdd { path } | Op::PatchDelete { path } => ODD_NAMES.contains(path),
-            Op::Checkpoint { paths, .. } => paths.iter().any(|p| ODD_NAMES.contains(p)),
+            Op::Write { path, .. } | Op::PatchAdd { path } | Op::PatchDelete { path } => ODD_NAMES.contains(path) || PADDED_NAMES.contains(path),
+            Op::Checkpoint { paths, .. } => paths.iter().any(|p| ODD_NAMES.contains(p) || PADDED_NAMES.contains(p)),
             _ => false,
         };
         for len in 2..=3usize {
@@ -590,6 +597,10 @@ fn replay(report: &Report, case: &Value) -> i32 {
         all.push(Op::Write { path: name, content: "odd\n" });
         all.push(Op::PatchAdd { path: name });
         all.push(Op::PatchDelete { path: name });
+        all.push(Op::Checkpoint { paths: vec![name], absolute: false });
+    }
+    for name in PADDED_NAMES {
+        all.push(Op::Write { path: name, content: "padded\n" });
         all.push(Op::Checkpoint { paths: vec![name], absolute: false });
     }
     let mut history = Vec::new();
